@@ -113,6 +113,8 @@ class SizedPart(Part):
     def py_oracle(self, case, obs):
         if obs == "9999":
             return "0,6,0"
+        if obs == "95":
+            return "0,7,0"          # the decoder keeps producing items without consuming input
         streaming = False
         for i, f in enumerate(obs.split(";")):
             x = [int(t) for t in f.split(",")]
